@@ -145,6 +145,15 @@ CLAIMED = {
         "plus: nothing still running, no foreign exception in the caller, later calls unaffected.",
    note=BASE + "Partial: GIL scheduling, async-exception delivery latency and native blocking are runtime behaviour outside the LTS; timing is compared with a jitter tolerance and re-tried twice.",
    technique="Coq theorems about an extracted Gallina model + differential correspondence with the implementation", design="§6 C19"),
+ 'C18': dict(
+   text="Theorems: structural equality (sorted start nodes, node identities, edge multiset, constraint identities) holds between a "
+        "graph and any copy that lists the same elements in another order, fails after every single edit (added/removed node, "
+        "edge, start node, constraint), is symmetric; equal graphs have equal hashes for any hash that is a function of the key "
+        "and an injective hash decides equality. ==/hash of copies and single edits are compared with the extracted same_graph "
+        "on descriptions read back from the objects; pickle round trips (graph, processor) and rebuilds in another interpreter "
+        "with another hash seed must keep fingerprint, design variables and decodes; GML export must contain every node and edge.",
+   note=BASE + "Partial: pickle and hash() are runtime behaviour outside the model (the theorems assume a hash that is a function of the structural key); DOT export is not parsed.",
+   technique="Coq theorems about an extracted Gallina model + differential correspondence with the implementation", design="§6 C18"),
 }
 NA_REASON = "machinery under construction in this round; not yet claimed"
 
